@@ -26,7 +26,8 @@ with `rel`s; otherwise the iterator `p` (= the key, as in C07) is kept in `ptr`.
 `copyOut` reads *through the iterator at that moment*: value, triggers, deadline, generation of
 whatever `primary` holds under `p` now; `undefined` when the element is gone.
 Mutators (`store`, `rise`, `remove`, `clear`) have one segment `body` = the C07 step; `stats` one
-segment `readStats`.
+segment `readStats`.  `add_ref`/`del_ref` (copying / dropping an `intrusive_ptr` handle) are operations
+too: one segment `body` = `refs++` / `refs--; return refs==0` (`Spec.xstep`).
 
 Instrumentation (models the `CPPCMS_VERIF_HOOKS` callback and the harness): a global `clock`
 ticks at every step; an operation records the clock at its invocation (`inv`) and response;
@@ -38,19 +39,21 @@ a log entry is a *ghost*: the answer of the sequential cache at that moment; not
 namespace Cppcms.C09
 open Cppcms Cppcms.C07
 
-def methodOf : Op → Method
-  | .fetch _ _ => .fetch
-  | .store _ _ _ _ _ _ _ => .store
-  | .rise _ => .rise
-  | .remove _ => .remove
-  | .clear => .clear
-  | .stats => .stats
+def methodOf : XOp → Method
+  | .cache (.fetch _ _) => .fetch
+  | .cache (.store _ _ _ _ _ _ _) => .store
+  | .cache (.rise _) => .rise
+  | .cache (.remove _) => .remove
+  | .cache .clear => .clear
+  | .cache .stats => .stats
+  | .addRef => .addRef
+  | .delRef => .delRef
 
 structure Thread where
   /-- operations not yet invoked -/
-  todo : List Op := []
+  todo : List XOp := []
   /-- the operation in flight -/
-  cur : Option Op := none
+  cur : Option XOp := none
   /-- its remaining instructions -/
   code : List Instr := []
   /-- guard objects alive on this thread's stack, innermost first -/
@@ -66,7 +69,7 @@ structure Thread where
 deriving Repr
 
 structure Config where
-  s : State
+  s : XState
   threads : List Thread
   clock : Nat := 0
   /-- hook log, newest first -/
@@ -74,7 +77,7 @@ structure Config where
 deriving Repr
 
 /-- all threads idle, no lock held, empty log -/
-def Config.init (s : State) (progs : List (List Op)) : Config :=
+def Config.init (s : XState) (progs : List (List XOp)) : Config :=
   { s := s, threads := progs.map fun p => { todo := p } }
 
 /-- two guards cannot coexist on different threads -/
@@ -91,40 +94,40 @@ def Config.put (c : Config) (t : Nat) (th : Thread) : Config :=
   { c with threads := c.threads.set t th, clock := c.clock + 1 }
 
 /-- the hook callback: append the running operation to the global log -/
-def Config.hook (c : Config) (t : Nat) (th : Thread) (op : Op) : List Lin :=
-  ⟨t, th.done.length, op, c.clock, (C07.step c.s op).2⟩ :: c.log
+def Config.hook (c : Config) (t : Nat) (th : Thread) (op : XOp) : List Lin :=
+  ⟨t, th.done.length, op, c.clock, (xstep c.s op).2⟩ :: c.log
 
 /-- one atomic segment of thread `t` (its state `th`, running `op`, remaining code `rest`) -/
-def execAct (c : Config) (t : Nat) (th : Thread) (op : Op) (a : Action) (rest : List Instr) : Config :=
+def execAct (c : Config) (t : Nat) (th : Thread) (op : XOp) (a : Action) (rest : List Instr) : Config :=
   match a, op with
-  | .lookup, .fetch now k =>
+  | .lookup, .cache (.fetch now k) =>
     let missed : Config :=
-      { (c.put t { th with code := th.held.map fun h => .rel h.1, ret := some (.ok .miss) })
+      { (c.put t { th with code := th.held.map fun h => .rel h.1, ret := some (.ok (.cache .miss)) })
         with log := c.hook t th op }
-    match alookup k c.s.primary with
+    match alookup k c.s.cache.primary with
     | none => missed
     | some cont =>
       if C07.Gen.fetchExpired cont.deadline now then missed
       else c.put t { th with code := rest, ptr := some k }
-  | .splice, .fetch _ _ =>
+  | .splice, .cache (.fetch _ _) =>
     match th.ptr with
     | some p =>
       { (c.put t { th with code := rest }) with
-        s := { c.s with lru := p :: c.s.lru.erase p }, log := c.hook t th op }
+        s := { c.s with cache := { c.s.cache with lru := p :: c.s.cache.lru.erase p } }, log := c.hook t th op }
     | none => c.put t { th with code := rest, ret := some .undefined }
-  | .copyOut, .fetch _ _ =>
-    let r : Ret := match th.ptr.bind fun p => alookup p c.s.primary with
-      | some cont => .ok (.hit cont.data cont.trigs cont.deadline cont.gen)
+  | .copyOut, .cache (.fetch _ _) =>
+    let r : Ret := match th.ptr.bind fun p => alookup p c.s.cache.primary with
+      | some cont => .ok (.cache (.hit cont.data cont.trigs cont.deadline cont.gen))
       | none => .undefined
     c.put t { th with code := rest, ret := some r }
-  | .readStats, .stats =>
-    { (c.put t { th with code := rest, ret := some (.ok (.stats c.s.size c.s.trigCount)) })
+  | .readStats, .cache .stats =>
+    { (c.put t { th with code := rest, ret := some (.ok (.cache (.stats c.s.cache.size c.s.cache.trigCount))) })
       with log := c.hook t th op }
-  | .body, .fetch _ _ => c.put t { th with code := rest, ret := some .undefined }
-  | .body, .stats => c.put t { th with code := rest, ret := some .undefined }
+  | .body, .cache (.fetch _ _) => c.put t { th with code := rest, ret := some .undefined }
+  | .body, .cache .stats => c.put t { th with code := rest, ret := some .undefined }
   | .body, op =>
-    { (c.put t { th with code := rest, ret := some (.ok (C07.step c.s op).2) })
-      with s := (C07.step c.s op).1, log := c.hook t th op }
+    { (c.put t { th with code := rest, ret := some (.ok (xstep c.s op).2) })
+      with s := (xstep c.s op).1, log := c.hook t th op }
   | _, _ => c.put t { th with code := rest, ret := some .undefined }
 
 /-- one step of thread `t`; `none` = the thread cannot move (finished, or blocked on a lock) -/
